@@ -13,6 +13,7 @@ from dask._task_spec import DataNode, List, Task, TaskRef
 from dask.array.chunk import getitem
 from dask.array.core import Array, unknown_chunk_message
 from dask.array.dispatch import concatenate_lookup, take_lookup
+from dask.array.utils import validate_axis
 from dask.base import tokenize
 from dask.highlevelgraph import HighLevelGraph
 
@@ -76,6 +77,7 @@ def shuffle(x, indexer: list[list[int]], axis: int, chunks: Literal["auto"] = "a
             f"Shuffling only allowed with known chunk sizes. {unknown_chunk_message}"
         )
     assert isinstance(axis, int), "axis must be an integer"
+    axis = validate_axis(axis, x.ndim)
     _validate_indexer(x.chunks, indexer, axis)
 
     x = _rechunk_other_dimensions(x, max(map(len, indexer)), axis, chunks)
